@@ -8,6 +8,7 @@ mod c09;
 mod c10;
 mod c14;
 mod c18;
+mod c19;
 mod c21;
 mod c22;
 mod c23;
@@ -33,6 +34,7 @@ fn main() {
         "c10" => c10::main(&args),
         "c14" => c14::main(&args),
         "c18" => c18::main(&args),
+        "c19" => c19::main(&args),
         "c21" => c21::main(&args),
         "c22" => c22::main(&args),
         "c23" => c23::main(&args),
